@@ -16,6 +16,7 @@ CLAIM = (
     "its observed-definitions check."
     " SKIPS: the loops of the functions in scope have no more `continue`, `break` or in-loop `return` statements than the reference "
     "read on the unchanged tree (baselines/skips.json): a new skip means elements that were handled are no longer handled."
+    " SKIPS also covers xsd.main and jsonschema.main (the duplicate-definition tests of the schema targets)."
 )
 NOTE = (
     "Trusted base: classification of naming functions into entity kinds by their names. Not decided: absence of collisions among derived "
@@ -92,7 +93,8 @@ def run(ctx) -> None:
     before = len(ctx.findings)
     for d in ("update", "update_for"):
         f = p.func(f"jsonschema.main:Definitions.{d}")
-        has = any(isinstance(n, ast.If) and any(isinstance(c, ast.Compare) and isinstance(c.ops[0], ast.In) for c in ast.walk(n.test)) and any(isinstance(r, ast.Return) and isinstance(r.value, ast.Call) for r in n.body) for n in ast.walk(f.node))
+        has = any(isinstance(n, ast.If) and any(isinstance(c, ast.Compare) and isinstance(c.ops[0], ast.In) for c in ast.walk(n.test)) and any(isinstance(r, ast.Return) and r.value is not None and not (isinstance(r.value, ast.Constant) and r.value.value is None) for r in n.body)
+                  and any(isinstance(c, ast.Call) and (dotted_of(c.func) or "").split(".")[-1] == "Error" for st_ in n.body for c in ast.walk(st_)) for n in ast.walk(f.node))
         if has:
             ctx.ok("DEFS", f, f.node, what=f"Definitions.{d} returns an Error when the key already exists")
         else:
@@ -115,7 +117,7 @@ def run(ctx) -> None:
     from ..rules import skips as _skips
     _base = _skips.load_baseline()
     for _m in ctx.p.modules.values():
-        if _m.name.endswith(".lib._generate_types"):
+        if _m.name.endswith(".lib._generate_types") or _m.name in ("aas_core_codegen.xsd.main", "aas_core_codegen.jsonschema.main"):
             for _f in _m.functions.values():
                 _skips.check_skips(ctx, _f, "SKIPS", _base)
 
